@@ -765,3 +765,140 @@ func httpCmd(args []string) int {
 	fmt.Println()
 	return 0
 }
+
+// ---- release of idle backend connections when an http proxy is closed (C10) ----------------------------------
+
+func init() { commands["release"] = releaseCmd }
+
+// releaseCmd: a real frps and frpc with two http proxies per option set; keep-alive requests leave idle (wrapped)
+// backend connections in frps' pool; one proxy is then removed by a client reload (explicit close). Its idle backend
+// connections must be released: the backend sees them closed; the other proxy's connections stay.
+func releaseCmd(args []string) int {
+	fs := flag.NewFlagSet("release", flag.ExitOnError)
+	seed := fs.Int64("seed", 1, "seed")
+	out := fs.String("out", "release.ndjson", "trace output")
+	fs.Parse(args)
+	env.QuietLogs()
+	sink, err := trace.Open(*out)
+	if err != nil {
+		fmt.Println(err)
+		return 2
+	}
+	rnd := rand.New(rand.NewSource(*seed))
+	n := 0
+	for _, o := range []htOpts{{Limit: "none"}, {Limit: "server"}, {Limit: "client"}, {Enc: true, Comp: true, Limit: "server"}, {Enc: true, Comp: true, Mux: true, Limit: "none"}} {
+		n++
+		sink.Reset("scenario", "release", "n", n, "opts", o)
+		httpPort := 0
+		srv, err := env.StartServer(func(c *v1.ServerConfig) {
+			c.BindPort, httpPort = tnPort(), tnPort()
+			c.VhostHTTPPort = httpPort
+			c.Transport.TCPMux = lo.ToPtr(o.Mux)
+		})
+		if err != nil {
+			sink.Emit("drv", "lc.note", "what", "server start failed")
+			continue
+		}
+		// one counting backend per proxy
+		type counted struct {
+			srv  *http.Server
+			ln   net.Listener
+			mu   sync.Mutex
+			open map[net.Conn]bool
+		}
+		mkBackend := func() *counted {
+			b := &counted{open: map[net.Conn]bool{}}
+			b.ln, _ = net.Listen("tcp", "127.0.0.1:0")
+			b.srv = &http.Server{Handler: http.HandlerFunc(func(w http.ResponseWriter, r *http.Request) { _, _ = io.WriteString(w, "ok") }),
+				ConnState: func(c net.Conn, st http.ConnState) {
+					b.mu.Lock()
+					if st == http.StateClosed || st == http.StateHijacked {
+						delete(b.open, c)
+					} else {
+						b.open[c] = true
+					}
+					b.mu.Unlock()
+				}}
+			go b.srv.Serve(b.ln)
+			return b
+		}
+		count := func(b *counted) int { b.mu.Lock(); defer b.mu.Unlock(); return len(b.open) }
+		b1, b2 := mkBackend(), mkBackend()
+		mk := func(name, dom string, b *counted) *v1.HTTPProxyConfig {
+			p := &v1.HTTPProxyConfig{}
+			p.Name, p.Type, p.LocalIP, p.LocalPort = name, "http", "127.0.0.1", b.ln.Addr().(*net.TCPAddr).Port
+			p.CustomDomains = []string{dom}
+			p.Transport.UseEncryption, p.Transport.UseCompression = o.Enc, o.Comp
+			if o.Limit != "none" {
+				p.Transport.BandwidthLimit, _ = types.NewBandwidthQuantity("8MB")
+				p.Transport.BandwidthLimitMode = o.Limit
+			}
+			return p
+		}
+		gone, stay := mk("gone", "gone.test", b1), mk("stay", "stay.test", b2)
+		cli, err := env.StartClient(srv.Cfg.BindPort, func(c *v1.ClientCommonConfig) {
+			c.Transport.TCPMux = lo.ToPtr(o.Mux)
+			c.Transport.TLS.Enable = lo.ToPtr(false)
+		}, []v1.ProxyConfigurer{gone, stay}, nil)
+		if err != nil {
+			sink.Emit("drv", "lc.note", "what", "client start failed")
+			srv.Stop()
+			continue
+		}
+		ok := waitFor(10*time.Second, func() bool {
+			for _, nm := range []string{"gone", "stay"} {
+				st, ok := cli.Svc.StatusExporter().GetProxyStatus(nm)
+				if !ok || st.Phase != "running" {
+					return false
+				}
+			}
+			return len(srv.Svc.VerifState().Names) == 2
+		})
+		if ok {
+			// three keep-alive user connections per proxy, two requests each, side by side: up to three pooled backend connections
+			var wg sync.WaitGroup
+			for _, host := range []string{"gone.test", "stay.test"} {
+				for k := 0; k < 3; k++ {
+					wg.Add(1)
+					go func(host string) {
+						defer wg.Done()
+						c, err := net.DialTimeout("tcp", fmt.Sprintf("127.0.0.1:%d", httpPort), 2*time.Second)
+						if err != nil {
+							return
+						}
+						defer c.Close()
+						br := bufio.NewReader(c)
+						for i := 0; i < 2; i++ {
+							fmt.Fprintf(c, "GET /r%d HTTP/1.1\r\nHost: %s\r\n\r\n", rnd.Intn(1000), host)
+							_ = c.SetReadDeadline(time.Now().Add(5 * time.Second))
+							resp, err := http.ReadResponse(br, nil)
+							if err != nil {
+								return
+							}
+							_, _ = io.Copy(io.Discard, resp.Body)
+							resp.Body.Close()
+							time.Sleep(20 * time.Millisecond)
+						}
+					}(host)
+				}
+			}
+			wg.Wait()
+			time.Sleep(200 * time.Millisecond)
+			before1, before2 := count(b1), count(b2)
+			// explicit close of one proxy: the client reloads its configuration without it
+			_ = cli.Svc.UpdateAllConfigurer([]v1.ProxyConfigurer{stay}, nil)
+			waitFor(5*time.Second, func() bool { return len(srv.Svc.VerifState().Names) == 1 })
+			released := waitFor(6*time.Second, func() bool { return count(b1) == 0 })
+			sink.Emit("drv", "lc.release", "opts", o, "idle_before", before1, "idle_after", count(b1), "released", released, "other_before", before2, "other_after", count(b2))
+		} else {
+			sink.Emit("drv", "lc.note", "what", "proxies not registered")
+		}
+		cli.Stop()
+		srv.Stop()
+		b1.srv.Close()
+		b2.srv.Close()
+	}
+	sink.Close()
+	fmt.Printf("STATS traces=%d events=%d release=%d\n", n, sink.N, n)
+	return 0
+}
